@@ -254,6 +254,10 @@ def run(ctx: Ctx):
     r_fit(ctx, model)
     r_best(ctx, model)
     r_branch(ctx, model)
+    from ..sites import no_memoisation
+    ctx.rule("F-fresh: no caching decorator on any function of pygaps.modelling., pygaps.core.modelisotherm.")
+    no_memoisation(ctx, load(ctx.root), "C12", "F-fresh", ('pygaps.modelling.', 'pygaps.core.modelisotherm.'),
+                   "fit results would be served from an earlier fit of an equal-hashing object")
 
 
 META = {
